@@ -251,7 +251,9 @@ func c10Run(r *core.Run) {
 				r.Violate(v)
 			}
 			if di%257 == 0 {
-				r.Sample(func() any { return map[string]any{"flat": c.Flat, "specified_grouping": c.Spec, "competing_grouping": c.Alt, "doc": d.Text} })
+				r.Sample(func() any {
+					return map[string]any{"flat": c.Flat, "specified_grouping": c.Spec, "competing_grouping": c.Alt, "doc": d.Text}
+				})
 			}
 		}
 		if c.Kind == "pair" {
